@@ -403,7 +403,7 @@ def verdict(prop, findings, trace_path=None, hist_file=None):
     return nv, len(shown)
 
 
-def storage_prop(prop, tier, seed, mode, relevant, level_note, replay=None, model=None):
+def storage_prop(prop, tier, seed, mode, relevant, level_note, replay=None, model=None, extra_findings=None):
     t0 = time.time()
     if replay:
         payload = json.load(open(replay))
@@ -413,7 +413,7 @@ def storage_prop(prop, tier, seed, mode, relevant, level_note, replay=None, mode
         fam = storage_family(mode, tier, seed, histories=[h], tag="replay-" + prop)
     else:
         fam = storage_family(mode, tier, seed)
-    nv, nk = verdict(prop, fam["findings"], fam["trace"], fam["histories_file"])
+    nv, nk = verdict(prop, fam["findings"] + (extra_findings or []), fam["trace"], fam["histories_file"])
     census = fam["census"]
     evals = sum(c for k, c in census.items() if any(k.startswith(r) for r in relevant))
     cov = {
@@ -477,8 +477,20 @@ def c06(tier, seed, replay):
 
 @reg("C07")
 def c07(tier, seed, replay):
+    # a transaction also "ends without a successful commit" when the process dies inside it: the crash
+    # family's images must never show part of it (those findings are reported under C02 as well)
+    extra = []
+    if not replay:
+        fam = storage_family("crash", tier, seed)
+        for f in fam["findings"]:
+            if f.get("prop") in ("C02", "C01") and f.get("kind") in ("not-a-prefix", "followup-mismatch", "followup-lost"):
+                g = dict(f)
+                g["prop"] = "C07"
+                g["via"] = "crash-family"
+                extra.append(g)
     return storage_prop("C07", tier, seed, "plain", ["dump/abort", "abort"],
-                        "dropped Rust write transactions; rollback through the C API is covered by C13/C24 checks", replay)
+                        "dropped Rust write transactions, plus transactions cut by a crash (crash family); rollback through "
+                        "the C API is covered by the C13/C24 checks", replay, extra_findings=extra)
 
 
 @reg("C01")
@@ -510,6 +522,109 @@ def c08(tier, seed, replay):
 def c28(tier, seed, replay):
     return storage_prop("C28", tier, seed, "vacuum", ["vacuum", "dump/vacuum"],
                         "vacuum of a cleanly closed database", replay)
+
+
+def generic_verdict(prop, findings, payload_of):
+    known = vlib.load_known()
+    nv = 0
+    shown = set()
+    for f in findings:
+        if f.get("prop") != prop:
+            continue
+        k = vlib.match_known(f, known)
+        if k:
+            if k["id"] not in shown:
+                shown.add(k["id"])
+                print("KNOWN-FINDING: property=%s %s [%s]" % (prop, k["what"], k["id"]))
+            continue
+        nv += 1
+        if nv <= 5:
+            rp = vlib.write_replay(prop, nv, payload_of(f))
+            print("VIOLATION property=%s replay=%s" % (prop, rp))
+            log("  finding: %s" % json.dumps(f))
+    return nv, len(shown)
+
+
+def seq_of_line(trace_path, line):
+    cur = None
+    with open(trace_path) as fh:
+        for i, l in enumerate(fh, 1):
+            if l.startswith('{"ev":"reset"'):
+                cur = json.loads(l).get("id")
+            if i >= line:
+                break
+    return cur
+
+
+@reg("C26")
+def c26(tier, seed, replay):
+    t0 = time.time()
+    vlib.build_harness()
+    cd = cache_dir("btree", tier, seed)
+    os.makedirs(cd, exist_ok=True)
+    # (1) the implementation-shaped model, exhaustively, for sequences in which a key is live at most once
+    cfg = "MC_BTreeUniqueQuick" if tier == "quick" else "MC_BTreeUnique"
+    m = model_run("BTree", cfg, tier, "btree-unique", workers=8, timeout=3000)
+    # (2) with equal keys the model must reproduce the known finding, and its counterexample must
+    #     reproduce on the real tree
+    kfm = model_run("BTree", "MC_BTreeDup", tier, "btree-dup", workers=4, timeout=600, must_hold=False)
+    if not kfm.get("violated"):
+        raise ToolError("BTree model no longer reproduces the equal-keys finding")
+    import re
+    out = open(os.path.join(cache_dir("model-btree-dup", tier, 0), "tlc.out")).read()
+    mm = re.search(r'<<"CEX", "(\w+)", "(.*)">>', out)
+    cex = json.loads(mm.group(2).encode().decode("unicode_escape")) if mm else []
+    # (3) executions of the real tree
+    if replay:
+        seqs = [json.load(open(replay))["sequence"]]
+    else:
+        n = 40 if tier == "quick" else 400
+        seqs = []
+        for i in range(n):
+            seqs.append(gen.gen_btree_seq(seed * 1009 + i, "uniq2/%d" % i, 3500, 40, 12, dup=False))
+            seqs.append(gen.gen_btree_seq(seed * 2003 + i, "uniq4/%d" % i, 2000, 60, 20, dup=False))
+        for i in range(3 if tier == "quick" else 20):
+            seqs.append(gen.gen_btree_seq(seed * 3001 + i, "short/%d" % i, 8, 4000 if tier == "quick" else 20000, 3000,
+                                          dup=False, observe_every=500, del_ratio=0.35))
+        for i in range(4):
+            seqs.append(gen.gen_btree_seq(seed * 4001 + i, "dup/%d" % i, 3500 if i % 2 else 2000, 30, 3, dup=True))
+        seqs.append({"id": "cex/MC_BTreeDup", "keylen": 3500, "keys": [1, 2, 3, 4, 5, 6, 7], "ops": cex})
+    sp = os.path.join(cd, "seqs.ndjson")
+    tp = os.path.join(cd, "trace.ndjson")
+    vlib.write_ndjson(sp, seqs)
+    stats = vlib.nvx(["btree", "--in", sp, "--out", tp, "--scratch", os.path.join(cd, "scratch")])
+    findings, info = vlib.tlc_trace("BTreeTrace", tp, "btree-" + tier)
+    by_id = {s["id"]: s for s in seqs}
+    for f in findings:
+        f["sequence"] = seq_of_line(tp, f["at"])
+    cex_reproduced = any(f["sequence"] == "cex/MC_BTreeDup" for f in findings) if not replay else None
+    # binding self-test: drop one scanned pair from a recorded observation
+    lines = open(tp).read().splitlines()
+    tgt = next((i for i, l in enumerate(lines) if '"ev":"obs"' in l and len(json.loads(l)["scan"]) > 2), None)
+    selftest = {"ran": False}
+    if tgt is not None and not replay:
+        start = max(j for j in range(tgt + 1) if lines[j].startswith('{"ev":"reset"'))
+        e = json.loads(lines[tgt]); e["scan"] = e["scan"][1:]
+        stp = os.path.join(cd, "selftest.ndjson")
+        open(stp, "w").write("\n".join(lines[start:tgt] + [json.dumps(e)]) + "\n")
+        sf, _ = vlib.tlc_trace("BTreeTrace", stp, "btree-selftest")
+        if not any(x["kind"] == "scan-mismatch" for x in sf):
+            raise ToolError("binding self-test failed: corrupted B-tree trace accepted")
+        selftest = {"ran": True, "findings_on_corrupted_trace": len(sf)}
+    nv, nk = generic_verdict("C26", findings, lambda f: {"property": "C26", "finding": f, "sequence": by_id.get(f["sequence"])})
+    cov = {"states": m["states"], "transitions": m["transitions"],
+           "model": {"cfg": cfg, "depth": m["depth"], "wall_s": m["wall_s"],
+                     "equal_keys_model_violates": kfm.get("violated"), "equal_keys_cex": cex,
+                     "cex_reproduced_on_real_tree": cex_reproduced},
+           "traces_validated_against_impl": len(seqs), "harness_stats": stats,
+           "trace_spec_states": info.get("distinct", 0), "binding_selftest": selftest,
+           "samples": [seqs[0], seqs[-1]] if len(seqs) > 1 else seqs,
+           "evaluations": stats.get("observations", 1), "distinct_nontrivial": len(seqs),
+           "rule": "seeded insert/delete/reopen sequences at fan-out 2, 4 and ~400; every observation (scan, lookups, delete result) judged by BTreeTrace.tla",
+           "known_findings_seen": nk}
+    vlib.write_evidence("C26", tier, seed, "model_checking", cov, time.time() - t0, nv,
+                        ASSUME_COMMON + ["fan-out 2 and 4 are obtained with 3500- and 2000-byte keys; the model uses the same page capacities"])
+    return 1 if nv else 0
 
 
 def run(prop, tier, seed, replay):
